@@ -224,6 +224,14 @@ def rwlock_case(draw, tier):
                 ops.append(op("work", draw(ints(1, 5))))
         fibers.append(ops)
     case = {"harness": "rwlock", "threads": threads, "cfg": {"nrw": nl}, "fibers": fibers, "classes": ["threads=%d" % threads, bias]}
+    if draw(ints(0, 14)) == 0:
+        # write-mostly lock under sustained contention: a few fibers each take the write lock many times in a row (hundreds of
+        # consecutive writer-to-writer hand-offs)
+        l = draw(ints(0, nl - 1))
+        for f in fibers[:draw(ints(2, min(4, nf)))]:
+            f.insert(draw(ints(0, len(f))), op("wrloop", l, draw(st.sampled_from([40, 70, 140, 300]))))
+        case["classes"].append("writer_streak")
+        case["max_sched"] = 12
     if draw(ints(0, 29)) == 0:
         # any number of readers queued behind a writer and admitted by one hand-off
         n = draw(st.sampled_from(CROWD_SIZES))
@@ -443,6 +451,37 @@ def chan_case(draw, tier):
 
 
 @st.composite
+def select_case(draw, tier):
+    """two channels created on one signal, one receiver that polls both with try_receive and sleeps on the signal"""
+    ctype = draw(st.sampled_from([0, 2, 3]))
+    threads = draw(ints(1, T(tier, 3, 4)))
+    cfg = {"nchan": 2, "chan_type0": ctype, "chan_type1": ctype, "chan_cap0": draw(ints(1, 3)), "chan_cap1": draw(ints(1, 3)), "shared_signal": 1}
+    fibers = []
+    total = 0
+    for c in (0, 1):
+        for _ in range(1 if ctype == 3 else draw(ints(1, 2))):
+            ops = small_ops(draw, 1)
+            n = draw(ints(1, T(tier, 8, 20)))
+            while n > 0:
+                b = draw(ints(1, n))
+                ops.append(op("send", c, b, draw(ints(0, 2))))
+                n -= b
+                total += b
+                ops.extend(small_ops(draw, 1))
+            fibers.append(ops)
+    rops = small_ops(draw, 1)
+    n = total
+    while n > 0:
+        b = draw(ints(1, n))
+        rops.append(op("selrecv", 0, b, draw(ints(0, 2))))
+        n -= b
+        rops.extend(small_ops(draw, 1))
+    fibers.insert(draw(ints(0, len(fibers))), rops)
+    names = {0: "bounded_signal", 2: "unbounded", 3: "unbounded_sp"}
+    return {"harness": "chan", "threads": threads, "cfg": cfg, "fibers": fibers, "classes": ["threads=%d" % threads, names[ctype], "two_channels_one_signal"]}
+
+
+@st.composite
 def mchan_case(draw, tier):
     threads = draw(ints(1, T(tier, 3, 4)))
     cap = draw(ints(1, 3))
@@ -536,6 +575,14 @@ def sleep_case(draw, tier):
     for _ in range(draw(ints(0, 2))):
         fibers.append([op("yield", draw(ints(1, 30)))])
     classes = ["threads=%d" % threads, "backlog" if backlog else "no_backlog", "sub_second" if not long_one else "seconds" if long_one[0] < 1000 else "hours"]
+    if (long_one is None or long_one[0] < 1000) and draw(ints(0, 4)) == 0:
+        # fibers that poll with fiber_yield for something a sleeper does after waking: the kernel threads never go idle, the
+        # sleeper depends on the polls made from inside fiber_yield
+        npoll = draw(ints(1, 3))
+        fibers.append([op("sleep", draw(ints(0, 2)), 0, draw(st.sampled_from([1000, 5000, 12000, 25000]))), op("setflag", 0)])
+        for _ in range(npoll):
+            fibers.append(small_ops(draw, 1) + [op("pollflag", 0)])
+        classes.append("pollers=%d" % npoll)
     return {"harness": "sleep", "threads": threads, "cfg": {"sleepers": 1, "ticks_per_quiescence": g}, "fibers": fibers, "classes": classes}
 
 
@@ -784,8 +831,9 @@ def chan_after_msig_case(draw, tier):
 
 
 def c11_parts(tier):
-    return [{"name": "chan", "strategy": chan_case(tier), "nsched": T(tier, 32, 160), "args": ["--tso", 1], "share": 0.5},
-            {"name": "mchan", "strategy": mchan_case(tier), "nsched": T(tier, 32, 160), "args": ["--tso", 1], "share": 0.3},
+    return [{"name": "chan", "strategy": chan_case(tier), "nsched": T(tier, 32, 160), "args": ["--tso", 1], "share": 0.4},
+            {"name": "select", "strategy": select_case(tier), "nsched": T(tier, 32, 160), "args": ["--tso", 1], "share": 0.15},
+            {"name": "mchan", "strategy": mchan_case(tier), "nsched": T(tier, 32, 160), "args": ["--tso", 1], "share": 0.25},
             {"name": "chan_after_msig", "strategy": chan_after_msig_case(tier), "nsched": T(tier, 32, 160), "args": ["--tso", 1], "share": 0.2}]
 SPECS["C11"] = rt_spec("C11", c11_parts, {"quick": 30000, "thorough": 150000},
     "bounded channel (2^1..2^4 slots, with signal and spinning), unbounded MPSC channel (with signal / spinning), single-producer channel: 1-4 senders (1 for SP), one receiver, "
@@ -902,7 +950,7 @@ def mpmc_case(draw, tier):
     return {"harness": "mpmc", "threads": 1, "cfg": {"recycle": recycle, "lazy_records": lazy, "far": 1 if far else 0}, "fibers": fibers, "classes": classes}
 
 
-POW2_BOUNDARIES = [8, 15, 16, 31, 32]
+POW2_BOUNDARIES = [8, 10, 15, 16, 20, 24, 31, 32]
 
 
 @st.composite
@@ -1200,7 +1248,10 @@ def io_case(draw, tier, shapes=("streams", "streams", "streams", "accept", "badf
         for n in per_acc:
             ops = small_ops(draw, 1)
             if first:
-                ops.insert(0, op("listen"))
+                nbl = draw(st.sampled_from([0, 0, 1, 2]))   # the application may poll its listener in non-blocking mode
+                ops.insert(0, op("listen", nbl))
+                if nbl:
+                    classes.append("nonblocking_listener")
                 first = False
             if n > 0:
                 ops.append(op("accept", n))
@@ -1271,14 +1322,14 @@ EXTRA_RULE = {
     "C10": "Crowds of 40 .. 520 further yielders on the thread; a fiber that yields while another is blocked in fiber_join on it; fiber-spinlock lock/trylock calls between the yields; "
            "second oracle, valid with any number of kernel threads: a fiber_yield that returns without a switch while program fibers sit in that thread's run queues (read from the deques) "
            "counts as a bypass of each of them.",
-    "C11": "Receivers use the blocking receive or the try_receive entry points polled with yield.",
+    "C11": "Receivers use the blocking receive or the try_receive entry points polled with yield; a part of the budget: two channels created on one signal with one receiver that polls both and sleeps on the signal.",
     "C12": "Crowds of 40 .. 2100 further participants (the release loop then wakes more than 1024 fibers); barrier counter starting near 2^31 / 2^32.",
     "C13": "Stalled-popper shapes continue until a recycled node is at the head again. A fifth of the budget runs the hazard-pointer harness of C14 (the reclamation the queue relies on).",
     "C14": "A thread releases only the slots it used, so slots a record was created with stay as they were. A quarter of the budget runs the MPMC FIFO harness of C13 (the library's own user of "
            "hazard pointers: use_after_reclaim / duplicated values there are hazard-pointer failures too).",
     "C15": "Relaxed queue with up to 12 producer lanes spread over up to 5 threads.",
     "C16": "Indices starting just below 2^8 .. 2^32; cases that use the waiting entry points push()/pop() with balanced counts; lockfree_ring_buffer_size never above the capacity.",
-    "C17": "Cases that start inside a worker session which has already handed out just under 2^8 .. 2^32 items; cases with two queues where the handler of an item of the first pushes onto the second (nested worker sessions on one thread).",
+    "C17": "Cases that start inside a worker session which has already handed out just under 2^8, 2^10, 2^15, 2^16, 2^20, 2^24, 2^31, 2^32 items; cases with two queues where the handler of an item of the first pushes onto the second (nested worker sessions on one thread).",
     "C18": "Descriptor part biased to descriptors closed under a waiter and numbers reused afterwards.",
     "C20": "The flushable stack is pushed through both mpmc_stack_push and mpmc_stack_push_timeout; reads let through inside the known-finding bracket are judged against known_findings.json.",
 }
